@@ -785,7 +785,7 @@ Proof. unfold v_add_to_object, v_delete_from_object. by destruct par. Qed.
 Theorem finish_add_uses object value pstr cs :
   PatchDefs.finish_add object value pstr cs =
   match pstr with
-  | [] => Ok (0, PatchDefs.set_key value None)       (* overwrite_item: deviation D2, no core primitive *)
+  | [] => Ok (0, PatchDefs.unnamed value)       (* overwrite_item: deviation D2, no core primitive *)
   | _ =>
       match PatchDefs.last_slash pstr 0 None with
       | None => Ok (9, object)
